@@ -265,7 +265,7 @@ theorem eCtx_recordDeleted {g : Bool} {c c' : Ctx} (h : eCtx g c = eCtx g c') (a
 
 /-! ## `ExchangeMove` -/
 
-theorem toAddOf_congr {g : Bool} {m m' : MoveObj} {c c' : Ctx} (hm : eObj m = eObj m') (hc : eCtx g c = eCtx g c') :
+theorem toAddOf_rel_congr {g : Bool} {m m' : MoveObj} {c c' : Ctx} (hm : eObj m = eObj m') (hc : eCtx g c = eCtx g c') :
     toAddOf m c = toAddOf m' c' := by
   unfold toAddOf
   rw [eObj_toAdd hm, eCtx_template hc]
@@ -273,7 +273,7 @@ theorem toAddOf_congr {g : Bool} {m m' : MoveObj} {c c' : Ctx} (hm : eObj m = eO
 theorem addStart_congr {g : Bool} (r : Nat) {s s' : State} (h : Rel g s s') :
     Rel g (addStart r s) (addStart r s') ∧ (addStart r s).ctx.moving = (addStart r s').ctx.moving := by
   have hm := h.obj r
-  have hn := toAddOf_congr hm h.ctx
+  have hn := toAddOf_rel_congr hm h.ctx
   unfold addStart
   simp only []
   rw [← hn, ← h.atoms]
@@ -284,7 +284,7 @@ theorem addStart_congr {g : Bool} (r : Nat) {s s' : State} (h : Rel g s s') :
 theorem attemptAddition_congr {g : Bool} (r : Nat) {s s' : State} (h : Rel g s s') :
     (attemptAddition r s).1 = (attemptAddition r s').1 ∧ Rel g (attemptAddition r s).2 (attemptAddition r s').2 := by
   have hm := h.obj r
-  have hn := toAddOf_congr hm h.ctx
+  have hn := toAddOf_rel_congr hm h.ctx
   obtain ⟨ha, hmv⟩ := addStart_congr r h
   have hc := attemptDisplacement_congr (g := g)
     (m := { s.obj r with toAdd := some (toAddOf (s.obj r) s.ctx) })
@@ -483,16 +483,12 @@ theorem compDispCall_congr {g : Bool} (rs : List Nat) {s s' : State} (h : Rel g 
   rw [e, e, ← h1]
   exact ⟨rfl, h2⟩
 
-theorem compExchAddLoop_cons (r : Nat) (rs : List Nat) (ok : Bool) (s : State) :
+theorem compExchAddLoop_step (r : Nat) (rs : List Nat) (ok : Bool) (s : State) :
     compExchAddLoop (r :: rs) ok s =
       compExchAddLoop rs (if (attemptAddition r s).1.isEmpty then ok else true)
-        ((if (attemptAddition r s).1.isEmpty then (attemptAddition r s).2
+        (clearExch (if (attemptAddition r s).1.isEmpty then (attemptAddition r s).2
           else { (attemptAddition r s).2 with
-                  ctx := recordAdded (attemptAddition r s).2.ctx (attemptAddition r s).1 (attemptAddition r s).2.atoms.rows }).setObj r
-          { (if (attemptAddition r s).1.isEmpty then (attemptAddition r s).2
-             else { (attemptAddition r s).2 with
-                  ctx := recordAdded (attemptAddition r s).2.ctx (attemptAddition r s).1 (attemptAddition r s).2.atoms.rows }).obj r
-            with toAdd := none }) := by
+                  ctx := recordAdded (attemptAddition r s).2.ctx (attemptAddition r s).1 (attemptAddition r s).2.atoms.rows }) r) := by
   rw [compExchAddLoop]
   rcases attemptAddition r s with ⟨idx, s1⟩
   simp only []
@@ -507,16 +503,16 @@ theorem compExchAddLoop_congr {g : Bool} (rs : List Nat) (ok : Bool) {s s' : Sta
   | nil => exact ⟨rfl, h⟩
   | cons r rs ih =>
     obtain ⟨h1, h2⟩ := attemptAddition_congr r h
-    rw [compExchAddLoop_cons, compExchAddLoop_cons, ← h1, ← h2.atoms]
+    rw [compExchAddLoop_step, compExchAddLoop_step, ← h1, ← h2.atoms]
     split
-    · exact ih _ (h2.setObj r (by rw [eObj_eq (h2.obj r)]; rfl))
+    · exact ih _ (clearExch_congr r h2)
     · have h3 : Rel g
           { (attemptAddition r s).2 with
               ctx := recordAdded (attemptAddition r s).2.ctx (attemptAddition r s).1 (attemptAddition r s).2.atoms.rows }
           { (attemptAddition r s').2 with
               ctx := recordAdded (attemptAddition r s').2.ctx (attemptAddition r s).1 (attemptAddition r s).2.atoms.rows } :=
         ⟨h2.atoms, h2.inp, h2.heap, eCtx_recordAdded h2.ctx _ _⟩
-      exact ih _ (h3.setObj r (by rw [eObj_eq (h3.obj r)]; rfl))
+      exact ih _ (clearExch_congr r h3)
 
 theorem compExchDelLoop_congr {g : Bool} (rs : List Nat) (labs : List Int) (idx : List Nat) {s s' : State}
     (h : Rel g s s') :
@@ -527,11 +523,10 @@ theorem compExchDelLoop_congr {g : Bool} (rs : List Nat) (labs : List Int) (idx 
   | nil => exact ⟨rfl, rfl, h⟩
   | cons r rs ih =>
     have hm := h.obj r
-    simp only [compExchDelLoop]
-    rw [← eObj_labels hm, ← h.inp]
+    rw [compExchDelLoop_cons, compExchDelLoop_cons, ← eObj_labels hm, ← h.inp]
     split
-    · exact ih _ _ h
-    · exact ih _ _ (h.withInp _)
+    · exact ih _ _ (clearExch_congr r h)
+    · exact ih _ _ ((clearExch_congr r h).withInp _)
 
 theorem saveFixed_congr {g : Bool} {c c' : Ctx} (h : eCtx g c = eCtx g c') (a : AtomsS) :
     eCtx g (saveFixed c a) = eCtx g (saveFixed c' a) := by
@@ -1055,53 +1050,127 @@ theorem plainLoop_noPresel (rs : List Nat) (ok : Bool) (s : State) (hp : NoPrese
     rw [e]
     exact ih _ _ (leafCall_noPresel r s hp)
 
-theorem compExchAddLoop_noPresel (rs : List Nat) (ok : Bool) (s : State) (hp : NoPresel s) :
-    NoPresel (compExchAddLoop rs ok s).2 := by
+/-! ### `CompositeExchangeMove.__call__`: the members' pre-selections are dropped, whatever was there at entry
+
+The composite draws its own targets. A one-shot pre-selection (`to_add_atoms`, `to_delete_label`) placed on a MEMBER
+is gone after the call on every exit path of both branches (repaired code; the pinned code kept it, see
+`pinned_compExch_keeps_preselection` in QProps/C03e.lean). Nothing is assumed about the heap at entry. -/
+
+/-- what a composite exchange call does to the transient fields of the move objects: every member has lost both
+    exchange pre-selections, every other object is untouched, `to_displace_labels` is touched nowhere -/
+structure MembersCleared (rs : List Nat) (s s' : State) : Prop where
+  len : s'.heap.length = s.heap.length
+  on : ∀ r ∈ rs, (s'.obj r).toAdd = none ∧ (s'.obj r).toDelete = none
+  off : ∀ r, r ∉ rs → s'.obj r = s.obj r
+  disp : ∀ r, (s'.obj r).toDisplace = (s.obj r).toDisplace
+
+theorem obj_of_heap (s s' : State) (h : s'.heap = s.heap) (r : Nat) : s'.obj r = s.obj r := by
+  simp only [State.obj, h]
+
+theorem MembersCleared.nil {s s' : State} (h : s'.heap = s.heap) : MembersCleared [] s s' :=
+  ⟨by rw [h], fun r hr => absurd hr (by simp), fun r _ => obj_of_heap s s' h r, fun r => by rw [obj_of_heap s s' h r]⟩
+
+theorem AgreeOff.obj_ne {r : Nat} {s s' : State} (h : AgreeOff r s s') (r' : Nat) (hne : r' ≠ r) :
+    s'.obj r' = s.obj r' := by
+  unfold AgreeOff at h
+  simp only [State.obj, List.getD_eq_getElem?_getD]
+  rw [h, List.getElem?_set_ne (Ne.symm hne)]
+
+/-- one member's turn (`s → s1`: only cell `r` touched, both exchange pre-selections dropped on it), then the rest
+    of the loop (`s1' → s2`, where `s1'` has the heap of `s1`) -/
+theorem MembersCleared.cons {r : Nat} {rs : List Nat} {s s1 s1' s2 : State}
+    (hag : AgreeOff r s s1) (hd : (s1.obj r).toDisplace = (s.obj r).toDisplace)
+    (hdel : (s1.obj r).toDelete = none) (hadd : (s1.obj r).toAdd = none)
+    (hh : s1'.heap = s1.heap) (h : MembersCleared rs s1' s2) : MembersCleared (r :: rs) s s2 := by
+  have e : ∀ x, s1'.obj x = s1.obj x := obj_of_heap s1 s1' hh
+  refine ⟨by rw [h.len, hh, hag.len], ?_, ?_, ?_⟩
+  · intro x hx
+    by_cases hxr : x ∈ rs
+    · exact h.on x hxr
+    · have hx' : x = r := by
+        rcases List.mem_cons.mp hx with h1 | h1
+        · exact h1
+        · exact absurd h1 hxr
+      subst hx'
+      rw [h.off x hxr, e]
+      exact ⟨hadd, hdel⟩
+  · intro x hx
+    have h1 : x ≠ r := fun hc => hx (by simp [hc])
+    have h2 : x ∉ rs := fun hc => hx (by simp [hc])
+    rw [h.off x h2, e, hag.obj_ne x h1]
+  · intro x
+    rw [h.disp x, e]
+    by_cases h1 : x = r
+    · subst h1; exact hd
+    · rw [hag.obj_ne x h1]
+
+theorem compExchAddLoop_cleared (rs : List Nat) (ok : Bool) (s : State) :
+    MembersCleared rs s (compExchAddLoop rs ok s).2 := by
   induction rs generalizing ok s with
-  | nil => exact hp
+  | nil => exact MembersCleared.nil rfl
   | cons r rs ih =>
-    obtain ⟨b1, b2, b3⟩ := attemptAddition_at r s
-    have hi := hp.obj r
-    rw [compExchAddLoop_cons]
-    apply ih
+    obtain ⟨b1, b2, _⟩ := attemptAddition_at r s
+    rw [compExchAddLoop_step]
     split
-    · obtain ⟨a1, a2⟩ := setObj_at b1 { (attemptAddition r s).2.obj r with toAdd := none }
-      refine noPresel_of_agree a1 (hp.idleBut r) ?_
-      rcases a2 with a2 | ⟨a2, _⟩
-      · rw [a2]; exact ⟨by rw [← hi.1, ← b2], by rw [← hi.2.1, ← b3], rfl⟩
-      · rw [a2]; exact idle_default
-    · have e : ∀ c : Ctx, ({ (attemptAddition r s).2 with ctx := c } : State).obj r = (attemptAddition r s).2.obj r :=
-        fun _ => rfl
-      obtain ⟨a1, a2⟩ := setObj_at (X := { (attemptAddition r s).2 with
+    · obtain ⟨c1, c2, c3, c4⟩ := clearExch_at b1 b2
+      exact MembersCleared.cons c1 c2 c3 c4 rfl (ih _ _)
+    · obtain ⟨c1, c2, c3, c4⟩ := clearExch_at
+        (X := { (attemptAddition r s).2 with
           ctx := recordAdded (attemptAddition r s).2.ctx (attemptAddition r s).1 (attemptAddition r s).2.atoms.rows })
-        (b1.trans (AgreeOff.of_heap_eq rfl)) { (attemptAddition r s).2.obj r with toAdd := none }
-      rw [e]
-      refine noPresel_of_agree a1 (hp.idleBut r) ?_
-      rcases a2 with a2 | ⟨a2, _⟩
-      · rw [a2]; exact ⟨by rw [← hi.1, ← b2], by rw [← hi.2.1, ← b3], rfl⟩
-      · rw [a2]; exact idle_default
+        (b1.trans (AgreeOff.of_heap_eq rfl)) (by rw [← b2]; rfl)
+      exact MembersCleared.cons c1 c2 c3 c4 rfl (ih _ _)
 
-theorem compExchDelLoop_heap (rs : List Nat) (labs : List Int) (idx : List Nat) (s : State) :
-    (compExchDelLoop rs labs idx s).2.2.heap = s.heap := by
+theorem compExchDelLoop_cleared (rs : List Nat) (labs : List Int) (idx : List Nat) (s : State) :
+    MembersCleared rs s (compExchDelLoop rs labs idx s).2.2 := by
   induction rs generalizing labs idx s with
-  | nil => rfl
+  | nil => exact MembersCleared.nil rfl
   | cons r rs ih =>
-    simp only [compExchDelLoop]
+    obtain ⟨c1, c2, c3, c4⟩ := clearExch_at (AgreeOff.refl r s) rfl
+    rw [compExchDelLoop_cons]
     split
-    · exact ih _ _ _
-    · exact ih _ _ _
+    · exact MembersCleared.cons c1 c2 c3 c4 rfl (ih _ _ _)
+    · exact MembersCleared.cons
+        (s1' := { clearExch s r with inp := (choice (setdiff (uniqueLabels (s.obj r).labels) labs) 0 s.inp).2 })
+        c1 c2 c3 c4 rfl (ih _ _ _)
 
-theorem compExchCall_noPresel (rs : List Nat) (bias : Nat) (s : State) (hp : NoPresel s) :
-    NoPresel (compExchCall rs bias s).2 := by
+theorem MembersCleared.of_heap_eq {rs : List Nat} {s s0 s' s0' : State} (h : MembersCleared rs s s')
+    (h0 : s0.heap = s.heap) (h1 : s0'.heap = s'.heap) : MembersCleared rs s0 s0' := by
+  have e0 := obj_of_heap s s0 h0
+  have e1 := obj_of_heap s' s0' h1
+  exact ⟨by rw [h1, h0, h.len], fun r hr => by rw [e1]; exact h.on r hr, fun r hr => by rw [e1, e0]; exact h.off r hr,
+    fun r => by rw [e1, e0]; exact h.disp r⟩
+
+/-- **the composite exchange call drops the members' pre-selections**, in both branches and on every exit path -/
+theorem compExchCall_cleared (rs : List Nat) (bias : Nat) (s : State) :
+    MembersCleared rs s (compExchCall rs bias s).2 := by
   rw [compExchCall_eq]
   split
-  · exact compExchAddLoop_noPresel rs false _ hp
-  · have hh := compExchDelLoop_heap rs [] [] { s with inp := s.inp.draw.2 }
+  · exact (compExchAddLoop_cleared rs false { s with inp := s.inp.draw.2 }).of_heap_eq rfl rfl
+  · have hh := compExchDelLoop_cleared rs [] [] { s with inp := s.inp.draw.2 }
     split
-    · intro m hm; rw [hh] at hm; exact hp m hm
-    · intro m hm
-      have hm' : m ∈ (compExchDelLoop rs [] [] { s with inp := s.inp.draw.2 }).2.2.heap := hm
-      rw [hh] at hm'; exact hp m hm'
+    · exact hh.of_heap_eq rfl rfl
+    · exact hh.of_heap_eq rfl rfl
+
+theorem noPresel_of_objs {s : State} (h : ∀ r, Idle (s.obj r)) : NoPresel s := by
+  intro m hm
+  obtain ⟨r, hr⟩ := List.getElem?_of_mem hm
+  have := h r
+  simp only [State.obj, List.getD_eq_getElem?_getD, hr, Option.getD_some] at this
+  exact this
+
+/-- after the call nothing is pending anywhere, provided nothing was pending on the objects the call does not touch
+    (and no `to_displace_labels` on a member: an exchange move never reads or resets it) -/
+theorem noPresel_of_cleared {rs : List Nat} {s s' : State} (h : MembersCleared rs s s')
+    (hoff : ∀ r, r ∉ rs → Idle (s.obj r)) (hdisp : ∀ r ∈ rs, (s.obj r).toDisplace = none) : NoPresel s' := by
+  apply noPresel_of_objs
+  intro r
+  by_cases hr : r ∈ rs
+  · exact ⟨by rw [h.disp r]; exact hdisp r hr, (h.on r hr).2, (h.on r hr).1⟩
+  · rw [h.off r hr]; exact hoff r hr
+
+theorem compExchCall_noPresel (rs : List Nat) (bias : Nat) (s : State) (hp : NoPresel s) :
+    NoPresel (compExchCall rs bias s).2 :=
+  noPresel_of_cleared (compExchCall_cleared rs bias s) (fun r _ => hp.obj r) (fun r _ => (hp.obj r).1)
 
 /-- no move call leaves a pre-selection pending -/
 theorem callTree_noPresel (t : Tree) (s : State) (hp : NoPresel s) : NoPresel (callTree t s).2 := by
@@ -1158,5 +1227,54 @@ theorem trial_noPresel (sim : Sim) (t : Tree) (v : Bool) (s : State) (hp : NoPre
     · exact saveState_noPresel sim _ h
     · exact revertState_noPresel sim _ h
   · exact h
+
+/-! ### the drivers do not touch the exchange pre-selections of any move object -/
+
+theorem notifyRefs_transient (rs added removed : List Nat) (h : List MoveObj) (r : Nat) :
+    ((notifyRefs rs added removed h).getD r { kind := .user }).toAdd = (h.getD r { kind := .user }).toAdd ∧
+    ((notifyRefs rs added removed h).getD r { kind := .user }).toDelete = (h.getD r { kind := .user }).toDelete := by
+  induction rs generalizing h with
+  | nil => exact ⟨rfl, rfl⟩
+  | cons a as ih =>
+    simp only [notifyRefs]
+    split
+    · obtain ⟨i1, i2⟩ := ih (h.set a (onAtomsChangedObj (h.getD a { kind := .user }) added removed))
+      rw [i1, i2]
+      by_cases har : a = r
+      · subst har
+        by_cases hlt : a < h.length
+        · simp [List.getD_eq_getElem?_getD, hlt, onAtomsChangedObj]
+        · rw [List.set_eq_of_length_le (by omega)]; exact ⟨rfl, rfl⟩
+      · simp [List.getD_eq_getElem?_getD, List.getElem?_set_ne har]
+    · exact ih h
+
+theorem saveState_transient (sim : Sim) (s : State) (r : Nat) :
+    ((saveState sim s).obj r).toAdd = (s.obj r).toAdd ∧ ((saveState sim s).obj r).toDelete = (s.obj r).toDelete := by
+  unfold saveState
+  cases sim.ens with
+  | base => exact ⟨rfl, rfl⟩
+  | canonical => exact ⟨rfl, rfl⟩
+  | hamiltonian => exact ⟨rfl, rfl⟩
+  | isobaric => exact ⟨rfl, rfl⟩
+  | grand => exact notifyRefs_transient _ _ _ s.heap r
+
+theorem revertState_obj (sim : Sim) (s : State) (r : Nat) : (revertState sim s).obj r = s.obj r := by
+  unfold revertState
+  cases sim.ens <;> rfl
+
+/-- whatever the verdict, the step after the move call keeps `to_add_atoms` / `to_delete_label` of every object -/
+theorem trial_transient (sim : Sim) (t : Tree) (v : Bool) (s : State) (r : Nat) :
+    ((trial sim t v s).2.obj r).toAdd = ((callTree t s).2.obj r).toAdd ∧
+    ((trial sim t v s).2.obj r).toDelete = ((callTree t s).2.obj r).toDelete := by
+  have e : trial sim t v s =
+      if (callTree t s).1 then
+        (if v then (.accepted, saveState sim (callTree t s).2) else (.rejected, revertState sim (callTree t s).2))
+      else (.failed, (callTree t s).2) := rfl
+  rw [e]
+  split
+  · split
+    · exact saveState_transient sim _ r
+    · rw [revertState_obj]; exact ⟨rfl, rfl⟩
+  · exact ⟨rfl, rfl⟩
 
 end MM
